@@ -88,6 +88,10 @@ def gen_switch(rng, idx, ncases):
     keys = sorted(keys)
     rng.shuffle(keys)
     has_default = rng.random() < 0.6
+    if rng.random() < 0.06:
+        keys, has_default = [], True          # a switch may consist of a default label only ...
+    elif rng.random() < 0.03:
+        keys, has_default = [], False         # ... or have no labels at all
     L = []
     fn = 'sw%d' % idx
     L.append('static int %s(%s v) {' % (fn, ty))
@@ -108,12 +112,14 @@ def gen_switch(rng, idx, ncases):
             ity = rng.choice(['int', 'long long', 'unsigned char', 'unsigned', 'short'])
             ik = [x for x in rng.sample(keys, min(len(keys), 4)) if -128 <= x <= 127] + [rng.randrange(0, 6), 7]
             body = ' '.join('case %d: r += %d; %s' % (x, 5000 + 17 * j, rng.choice(['break;', 'break;', ''])) for j, x in enumerate(sorted(set(ik))))
-            L.append('\tcase %s: r += %d; switch ((%s)(v & 7)) { %s %s } r += 3; break;' % (spell(rng, k, pbits, psigned), i + 1, ity, body, rng.choice(['default: r += 900; break;', '', 'default: ;'])))
+            L.append('\tcase %s: r += %d; switch ((%s)(v & 7)) { %s %s } switch (v & 1) { default: r += 40000; } r += 3; break;' % (spell(rng, k, pbits, psigned), i + 1, ity, body, rng.choice(['default: r += 900; break;', '', 'default: ;'])))
         else:
             L.append('\tcase %s: r += %d; break;' % (spell(rng, k, pbits, psigned), i + 1))
         exp[k] = i + 1
     if has_default and dpos >= len(keys):
         L.append('\tdefault: r += 1000003; break;')
+    if not keys and not has_default:
+        L.append('\tr += 77;')     # unreachable statement inside a switch without labels
     L.append('\t}')
     if wrap < 0.25:
         L.append('\tif (it == 0) continue; r += 7; }')
